@@ -451,7 +451,11 @@ public:
       typename ttbl_t::term_map_t gen_map /*unused*/;
 
       // Build up the mapping of right onto left, variable by variable.
-      // Assumption: the set of variables in left & right are common.
+      // A variable that is only tracked on the right is unconstrained
+      // on the left: give it a fresh term so that it is compared too.
+      for (auto p : right.m_var_map) {
+        left.term_of_var(p.first);
+      }
       for (auto p : left.m_var_map) {
         if (!left.m_ttbl.map_leq(right.m_ttbl, left.term_of_var(p.first),
                                  right.term_of_var(p.first), gen_map))
